@@ -242,6 +242,19 @@ def _build_model(timeout):
 # ----------------------------------------------------------------------------------------
 # running case files
 # ----------------------------------------------------------------------------------------
+def _big_stack():
+    # the extracted model recurses on long lists (non-tail-recursive list functions)
+    import resource
+    try:
+        soft, hard = resource.getrlimit(resource.RLIMIT_STACK)
+        want = 8 << 30
+        if hard != resource.RLIM_INFINITY:
+            want = min(want, hard)
+        resource.setrlimit(resource.RLIMIT_STACK, (want, hard))
+    except Exception:
+        pass
+
+
 def run_cases(exe, cases, env=None, timeout=600, per_case_restart=True, extra_args=(), max_deaths=200):
     """Feed the case lines to exe; return a list with one output line per case.
     If the process dies (crash, sanitizer abort, or the library calling exit()), the case whose
@@ -258,7 +271,8 @@ def run_cases(exe, cases, env=None, timeout=600, per_case_restart=True, extra_ar
     while i < n:
         data = "\n".join(cases[i:]) + "\n"
         try:
-            p = subprocess.run([exe] + list(extra_args), input=data, capture_output=True, text=True, timeout=timeout, env=e)
+            p = subprocess.run([exe] + list(extra_args), input=data, capture_output=True, text=True, timeout=timeout, env=e,
+                               preexec_fn=_big_stack)
             rc, out, err = p.returncode, p.stdout, p.stderr
         except subprocess.TimeoutExpired as ex:
             rc = -999
